@@ -28,6 +28,9 @@ type Env struct {
 	pkg   *types.Package
 	reach string
 	oldNowT string
+	noHints bool
+	depthHints int
+	pol     int // +1: the expression is a proof goal; -1: an assumption; 0: unknown
 	errs  *[]string
 	what  string
 }
@@ -97,16 +100,34 @@ func specSort(t string) string {
 	return "Int"
 }
 
+func (e *Env) evalGoal(s *SExpr) Val {
+	n := *e
+	n.pol = 1
+	return n.eval(s)
+}
+
+func (e *Env) evalAssume(s *SExpr) Val {
+	n := *e
+	n.pol = -1
+	return n.eval(s)
+}
+
+func (e *Env) flipped() *Env {
+	n := *e
+	n.pol = -e.pol
+	return &n
+}
+
 func (e *Env) eval(s *SExpr) Val {
 	switch s.Kind {
 	case "imp":
-		return boolVal(imp(e.eval(s.L).T(), e.eval(s.R).T()))
+		return boolVal(imp(e.flipped().eval(s.L).T(), e.eval(s.R).T()))
 	case "and":
 		return boolVal(and(e.eval(s.L).T(), e.eval(s.R).T()))
 	case "or":
 		return boolVal(or(e.eval(s.L).T(), e.eval(s.R).T()))
 	case "not":
-		return boolVal(not(e.eval(s.L).T()))
+		return boolVal(not(e.flipped().eval(s.L).T()))
 	case "forall", "exists":
 		n := e
 		var bs []string
@@ -126,10 +147,28 @@ func (e *Env) eval(s *SExpr) Val {
 			n = n.with(v.Name, bv)
 		}
 		body := n.eval(s.Body).T()
-		if s.Kind == "forall" {
-			return boolVal("(forall (" + strings.Join(bs, " ") + ") " + imp(and(guards...), body) + ")")
+		// instantiation hints: forall k.P(k) is equivalent to (forall k.P(k)) /\ P(t) and
+		// exists k.P(k) to (exists k.P(k)) \/ P(t) for any term t; the index terms the code
+		// itself uses are added as instances so that the solvers need not guess them.
+		var insts []string
+		wantHints := (s.Kind == "forall" && e.pol <= 0) || (s.Kind == "exists" && e.pol >= 0)
+		if wantHints && len(s.Vars) == 1 && specSort(s.Vars[0].Type) == "Int" && e.resolveType(s.Vars[0].Type) == nil && e.fr != nil && !e.noHints {
+			for _, t := range e.fr.top.hintTerms() {
+				if strings.Contains(t, "bv.") {
+					continue
+				}
+				m := n.with(s.Vars[0].Name, Val{L: []string{t}, S: []string{"Int"}})
+				m.noHints = e.depthHints >= 1
+				m.depthHints = e.depthHints + 1
+				insts = append(insts, m.eval(s.Body).T())
+			}
 		}
-		return boolVal("(exists (" + strings.Join(bs, " ") + ") " + and(append(guards, body)...) + ")")
+		if s.Kind == "forall" {
+			q := "(forall (" + strings.Join(bs, " ") + ") " + imp(and(guards...), body) + ")"
+			return boolVal(and(append([]string{q}, insts...)...))
+		}
+		q := "(exists (" + strings.Join(bs, " ") + ") " + and(append(guards, body)...) + ")"
+		return boolVal(or(append([]string{q}, insts...)...))
 	case "go":
 		return e.evalGo(s.Go)
 	}
@@ -239,6 +278,16 @@ func (e *Env) lookupIdent(name string) (Val, bool) {
 		se, err := parseSExpr(c)
 		if err == nil {
 			return e.eval(se), true
+		}
+	}
+	if e.fr != nil && e.fr.top.contract != nil {
+		for _, gv := range e.fr.top.contract.GhostVars {
+			if gv.Name == name {
+				fam := "GV_" + funcKey(e.fr.top.fn) + "." + name
+				srt := specSort(gv.GType)
+				vc.family(fam, srt)
+				return Val{L: []string{vc.lookup(e.heap, fam)}, S: []string{srt}}, true
+			}
 		}
 	}
 	if e.fr != nil {
@@ -897,6 +946,26 @@ func (e *Env) evalCall(t *ast.CallExpr) Val {
 	case "str":
 		return arg(0)
 	}
+	if sf, ok := vc.S.Funcs[name]; ok && sf.Macro {
+		if len(t.Args) != len(sf.Params) {
+			e.errf("macro %s: wrong number of arguments", name)
+			return intVal("0")
+		}
+		n := *e
+		n.vars = map[string]Val{}
+		for k, x := range e.vars {
+			n.vars[k] = x
+		}
+		for i, p := range sf.Params {
+			a := arg(i)
+			if T := e.resolveType(p.Type); T != nil && a.Typ == nil {
+				a.Typ = T
+			}
+			n.vars[p.Name] = a
+		}
+		n.what = e.what + " (macro " + name + ")"
+		return n.eval(sf.Body)
+	}
 	if sf, ok := vc.S.Funcs[name]; ok {
 		fn := vc.specFunc(sf, e)
 		if len(t.Args) != len(sf.Params) {
@@ -1026,11 +1095,11 @@ func (e *Env) pureMethodCall(sel *ast.SelectorExpr, argExprs []ast.Expr) (Val, b
 	}
 	var reqs, enss []string
 	for _, r := range ct.Requires {
-		reqs = append(reqs, ce.eval(r.E).T())
+		reqs = append(reqs, ce.evalGoal(r.E).T())
 	}
 	bindResults(vc, ce, sig, ct.Results, res)
 	for _, en := range ct.Ensures {
-		enss = append(enss, ce.eval(en.E).T())
+		enss = append(enss, ce.evalAssume(en.E).T())
 	}
 	vc.assert(imp(and(reqs...), and(enss...)))
 	out := res
